@@ -634,3 +634,52 @@ func boundedEvidence(bs []*boundedResult) []interface{} {
 	}
 	return out
 }
+
+// cmdReplay re-runs the replay recorded in a replay file against the current tree: the generated Go test is
+// injected into the package with -overlay (nothing is written to the repository) and the real function is called
+// on the solver's input. Exit 1 when the misbehaviour shows again, 0 when it does not (or when the file has no
+// runnable replay: bounded stand-ins, scans and obligations without a model name the command to re-run instead).
+func cmdReplay(args []string) {
+	fs := flag.NewFlagSet("replay", flag.ExitOnError)
+	repo := fs.String("repo", "/repo", "repository")
+	verif := fs.String("verif", "/verif", "verif directory")
+	fs.Parse(args)
+	if fs.NArg() != 1 {
+		fmt.Fprintln(os.Stderr, "usage: lzvc replay [-repo dir] [-verif dir] <replay file>")
+		os.Exit(2)
+	}
+	b, err := os.ReadFile(fs.Arg(0))
+	if err != nil {
+		fmt.Fprintln(os.Stderr, err)
+		os.Exit(2)
+	}
+	var rf replayFile
+	if err := json.Unmarshal(b, &rf); err != nil {
+		fmt.Fprintln(os.Stderr, "not a replay file:", err)
+		os.Exit(2)
+	}
+	fmt.Printf("property %s, obligation %s (%s)\n  clause: %s\n  position: %s\n  solver: %s -> %s\n", rf.Property, rf.Obligation, rf.Class, rf.Clause, rf.Position, rf.Solver, rf.Result)
+	if rf.Replay.Test == "" {
+		fmt.Printf("no runnable replay in this file: %s\n", rf.Replay.Reason)
+		if rf.Replay.Output != "" {
+			fmt.Println(rf.Replay.Output)
+		}
+		fmt.Printf("re-run the check to decide it again: ./check %s quick\n", rf.Property)
+		return
+	}
+	w := &vc.World{}
+	rr := &vc.ReplayResult{Attempted: true, TestSrc: rf.Replay.Test}
+	pkgDir := *repo
+	if strings.HasPrefix(rf.Function, "suffix.") {
+		pkgDir = filepath.Join(*repo, "suffix")
+	}
+	work := filepath.Join(*verif, ".work", "replay-"+safeName(rf.Obligation))
+	w.RunReplay(*repo, pkgDir, rr, work, true)
+	os.RemoveAll(work)
+	fmt.Println(rr.Output)
+	fmt.Printf("replay: %s\n", rr.Reason)
+	if rr.Confirmed {
+		fmt.Printf("VIOLATION property=%s replay=%s\n", rf.Property, fs.Arg(0))
+		os.Exit(1)
+	}
+}
